@@ -5,10 +5,12 @@ package discov
 
 import (
 	"bufio"
+	"bytes"
 	"encoding/json"
 	"fmt"
 	"os"
 	"sort"
+	"sync"
 	"testing"
 
 	"github.com/zeromicro/go-zero/core/discov/internal"
@@ -79,8 +81,8 @@ func TestVerifC13(t *testing.T) {
 	if err != nil {
 		t.Fatal(err)
 	}
-	var cases []verifC13Case
-	if err := json.Unmarshal(data, &cases); err != nil {
+	var raws []json.RawMessage
+	if err := json.Unmarshal(data, &raws); err != nil {
 		t.Fatal(err)
 	}
 	f, err := os.Create(out)
@@ -91,17 +93,48 @@ func TestVerifC13(t *testing.T) {
 	w := bufio.NewWriterSize(f, 1<<20)
 	defer w.Flush()
 
-	for _, cs := range cases {
+	// "cluster" cases (real Registry/cluster on the fake etcd) run on a few goroutines: each has
+	// its own endpoints, hence its own cluster, and a failing Get costs the code's own 1 s cool-down
+	results := make([][]byte, len(raws))
+	var wg sync.WaitGroup
+	sem := make(chan struct{}, 8)
+	for i, raw := range raws {
+		var cs verifC13Case
+		if err := json.Unmarshal(raw, &cs); err != nil {
+			t.Fatal(err)
+		}
+		if cs.Kind == "cluster" {
+			var cc VerifClusterCase
+			if err := json.Unmarshal(raw, &cc); err != nil {
+				t.Fatal(err)
+			}
+			wg.Add(1)
+			sem <- struct{}{}
+			go func(i int, cc VerifClusterCase) {
+				defer wg.Done()
+				defer func() { <-sem }()
+				results[i], _ = json.Marshal(VerifRunCluster(cc, nil))
+			}(i, cc)
+			continue
+		}
 		func() {
+			var buf bytes.Buffer
+			bw := bufio.NewWriter(&buf)
 			defer func() {
 				if r := recover(); r != nil {
-					b, _ := json.Marshal(map[string]any{"id": cs.ID, "panic": fmt.Sprint(r)})
-					w.Write(b)
-					w.WriteByte('\n')
+					results[i], _ = json.Marshal(map[string]any{"id": cs.ID, "panic": fmt.Sprint(r)})
+					return
 				}
+				bw.Flush()
+				results[i] = bytes.TrimSpace(buf.Bytes())
 			}()
-			verifC13Run(t, cs, w)
+			verifC13Run(t, cs, bw)
 		}()
+	}
+	wg.Wait()
+	for _, r := range results {
+		w.Write(r)
+		w.WriteByte('\n')
 	}
 }
 
